@@ -32,6 +32,8 @@ class TS:
         self.polls = 0
         self.reaped = False
         self.parent = None
+        self.ready = None  # state "blocked": runnable again when ready() is true
+        self.exit_clock = None
 
     def status(self):
         if self.state == "parked":
@@ -42,7 +44,13 @@ class TS:
 
 
 class Sched:
-    def __init__(self, watchdog=20.0):
+    def __init__(self, watchdog=20.0, mode="labels"):
+        # mode "labels": yield points are the ones the model's labels need (driven by a schedule of labels);
+        # mode "free": EVERY instrumented point of every managed thread is a yield point and the caller
+        # picks any runnable thread at each step (free scheduling, independent of the model)
+        self.mode = mode
+        self.clock = 0
+        self.nworkers = 0
         self.cv = threading.Condition()
         self.running = 0
         self.by_ident = {}
@@ -58,6 +66,8 @@ class Sched:
         return self.by_ident.get(threading.get_ident())
 
     def parks(self, ts, tag):
+        if self.mode == "free":
+            return True
         if ts.kind == "client":
             return tag[1] == "L"
         if ts.kind == "worker":
@@ -81,17 +91,39 @@ class Sched:
         with self.cv:
             was_running = ts.state == "running"
             ts.state, ts.tag = "done", None
+            ts.exit_clock = self.clock
             if was_running:
                 self.running -= 1
             self.cv.notify_all()
 
     # ---- scheduler side ----
+    def block_until(self, ready, tag):
+        """thread side: give up the processor until ready() holds (checked by the scheduler)"""
+        ts = self.current()
+        if ts is None or self.free:
+            return
+        ts.ready = ready
+        self._yield(ts, "blocked", tag)
+
+    def runnable(self):
+        out = []
+        for t in self.all:
+            if t.state == "parked":
+                out.append(t)
+            elif t.state == "join" and t.wait_for.state == "done":
+                out.append(t)
+            elif t.state == "blocked" and t.ready():
+                out.append(t)
+        return sorted(out, key=lambda t: t.name)
+
     def spawn(self, name, kind, fn):
         ts = TS(name, kind)
 
         def body():
             self.by_ident[threading.get_ident()] = ts
             try:
+                if self.mode == "free":
+                    self.park(("start",))
                 fn()
             finally:
                 self._exit(ts)
@@ -108,7 +140,7 @@ class Sched:
 
     def resume(self, ts):
         with self.cv:
-            if ts.state not in ("parked", "join", "lockwait"):
+            if ts.state not in ("parked", "join", "lockwait", "blocked"):
                 raise AssertionError(f"resume of {ts.name} in state {ts.state}")
             ts.state = "running"
             self.running += 1
@@ -138,7 +170,7 @@ class Sched:
         """abandon the schedule: let every managed thread run freely to its end"""
         with self.cv:
             self.free = True
-            pending = [t for t in self.all if t.state in ("parked", "join", "lockwait")]
+            pending = [t for t in self.all if t.state in ("parked", "join", "lockwait", "blocked")]
             for t in pending:
                 t.state = "running"
                 self.running += 1
@@ -166,7 +198,8 @@ class MThread(_real_threading.Thread):
         if s is None or s.free or parent is None:
             self._ts = None
             return super().start()
-        ts = TS("w:" + parent.name, "worker")
+        ts = TS("w:" + parent.name + (f"#{s.nworkers}" if s.mode == "free" else ""), "worker")
+        s.nworkers += 1
         ts.thread = self
         ts.parent = parent
         self._ts = ts
@@ -185,6 +218,8 @@ class MThread(_real_threading.Thread):
         s = self._sched
         s.by_ident[threading.get_ident()] = ts
         try:
+            if s.mode == "free":
+                s.park(("start",))
             super().run()
         finally:
             s._exit(ts)
@@ -271,17 +306,25 @@ class IEvent:
     def is_set(self):
         s = self.sched
         ts = s.current()
-        if ts is not None and ts.kind == "worker" and not s.free:
+        if ts is not None and not s.free and s.mode == "free":
+            s.park(("event", "is_set"))
+        elif ts is not None and ts.kind == "worker" and not s.free:
             ts.polls += 1
             if s.poll_spec == (ts.name, ts.polls):
                 s.park(("poll", ts.polls))
         return self.real.is_set()
 
     def set(self):
+        s = self.sched
+        if s.mode == "free" and s.current() is not None and not s.free:
+            s.park(("event", "set"))
         self.log.append("set")
         self.real.set()
 
     def clear(self):
+        s = self.sched
+        if s.mode == "free" and s.current() is not None and not s.free:
+            s.park(("event", "clear"))
         self.log.append("clear")
         self.real.clear()
 
